@@ -101,8 +101,34 @@ def r1_element_attachment(ctx):
                      '' if polluted is None else 'a nested is_valid() call (line %s) runs between add_ele and this report and re-targets the current element' % polluted.lineno)
 
 
+def attach_on_first_report(ctx):
+    """an error node that add_seg / add_ele created is linked into the error tree when its first error arrives
+    (_add_cur_seg, _add_cur_ele): on every path on which the `*_node_added` flag is raised the node was appended to
+    its parent's list first - a node that is marked as added without being linked keeps its errors out of the
+    acknowledgement and the HTML report (verdict False, nothing to explain it)"""
+    for meth, flag, lst in (('_add_cur_seg', 'self.seg_node_added', 'children'), ('_add_cur_ele', 'self.ele_node_added', 'elements')):
+        fn = ctx.func('error_handler', 'err_handler.' + meth)
+        g = ctx.cfg(fn)
+        sets = [nd for nd in g.nodes if nd.kind == 'stmt' and isinstance(nd.ast, ast.Assign) and any(path_of(t) == flag for t in nd.ast.targets)
+                and A.const(nd.ast.value) is True]
+        if not sets:
+            raise AnalysisError('err_handler.%s: the flag %s is not raised here any more' % (meth, flag))
+
+        def links(nd):
+            return any(isinstance(x, ast.Call) and isinstance(x.func, ast.Attribute) and x.func.attr in ('append', 'insert')
+                       and isinstance(x.func.value, ast.Attribute) and x.func.value.attr == lst for x in g.walk_exprs(nd))
+        path = None
+        for s_ in sets:
+            path = path or g.find_path(g.entry, lambda nd, s_=s_: nd is s_, blocked=links)
+        yield Ob('error_handler:err_handler.%s links the node before it marks it as added' % meth, path is None, ctx.floc(fn),
+                 '' if path is None else '%s becomes True on a path that does not append the node to .%s (via lines %s): the errors stored in it are never reported'
+                 % (flag, lst, [n_.lineno for n_ in path if n_.lineno][-3:]))
+
+
 def r2_segment_attachment(ctx):
     _preamble(ctx)
+    for o in attach_on_first_report(ctx):
+        yield o
     km = KeyMaker()
     m = ctx.mod('map_walker')
     total = 0
@@ -337,9 +363,18 @@ def r5_shared_element_checks(ctx):
 
 def r6_shared_walker(ctx):
     """a missing mandatory segment/loop, an exceeded repeat limit and an unexpected segment are found by the walker
-    atoms of C02.R5: the same wiring that must not accuse a conformant document must not excuse a faulty one"""
+    atoms of C02.R5 / R10: the same wiring that must not accuse a conformant document must not excuse a faulty one"""
     from . import c02
     for o in c02.r5_walker_wiring(ctx):
+        yield o
+    for o in c02.r10_wrapper_loops(ctx):
+        yield o
+
+
+def r8_no_state_between_documents(ctx):
+    """a fault is detected whatever was validated before in the same process: C15.R9 / C18.R2 (shared)"""
+    from . import c15
+    for o in c15.validator_keeps_no_state(ctx):
         yield o
 
 
@@ -359,5 +394,6 @@ RULES = [
     Rule('C03.R4', 'message/code agreement with the X12 code meanings', r4_codes, floor=15),
     Rule('C03.R5', 'shared with C15.R3/R6: length atoms measure the right string with the right code; delegated checks always run', r5_shared_element_checks, floor=19),
     Rule('C03.R6', 'shared with C02.R5: walker counting/ordering atoms (pending mandatory nodes are reported, limits, positions)', r6_shared_walker, floor=10),
+    Rule('C03.R8', 'shared with C18.R2: the validating modules keep no module/class-level state and cache nothing across calls', r8_no_state_between_documents, floor=8),
     Rule('C03.R7', 'shared with C14.R3/R4: syntax-note semantics and routing', r7_shared_syntax, floor=8),
 ]
